@@ -33,6 +33,7 @@ type frameRec struct {
 	// the child that ran during the last call-family instruction
 	child       *childEnd
 	wantCreated bool
+	kidsReturned, staticKidsReturned int
 }
 
 type childEnd struct {
@@ -111,12 +112,15 @@ func (t *tracer) liveDigest() map[string]string {
 		k := fmt.Sprintf("%x/", a[:])
 		d[k+"balance"] = t.st.GetBalance(a).String()
 		d[k+"nonce"] = fmt.Sprint(t.st.GetNonce(a))
-		d[k+"codehash"] = fmt.Sprintf("%x", t.st.GetCodeHash(a))
 		d[k+"selfdestructed"] = fmt.Sprint(t.st.HasSuicided(a))
-		// an empty account is equivalent to an absent one (EIP-161): existence is compared for non-empty accounts only
+		// an empty account is equivalent to an absent one (EIP-161): existence and the code hash (zero for
+		// an absent account, keccak("") for an empty one) are compared for non-empty accounts only; the
+		// raw existence bit is kept under a "~" key that is reported as information, not judged
 		if !t.st.Empty(a) {
 			d[k+"exists"] = fmt.Sprint(t.st.Exist(a))
+			d[k+"codehash"] = fmt.Sprintf("%x", t.st.GetCodeHash(a))
 		}
+		d["~"+k+"exists"] = fmt.Sprint(t.st.Exist(a))
 		for _, s := range allSlots {
 			if v := t.st.GetState(a, slotHash(s)); v != (common.Hash{}) {
 				d[k+fmt.Sprintf("slot%#x", s)] = fmt.Sprintf("%x", v)
@@ -131,12 +135,15 @@ func (t *tracer) liveDigest() map[string]string {
 func diffDigest(a, b map[string]string) []string {
 	var out []string
 	for k, v := range a {
+		if k[0] == '~' {
+			continue
+		}
 		if b[k] != v {
 			out = append(out, fmt.Sprintf("%s: %s -> %s", k, v, b[k]))
 		}
 	}
 	for k, v := range b {
-		if _, ok := a[k]; !ok {
+		if _, ok := a[k]; !ok && k[0] != '~' {
 			out = append(out, fmt.Sprintf("%s: <none> -> %s", k, v))
 		}
 	}
@@ -197,6 +204,10 @@ func (t *tracer) closeFrame(failed bool, why string) {
 	if len(t.stack) > 0 {
 		p := t.stack[len(t.stack)-1]
 		p.child = &childEnd{firstGas: fr.firstGas, ub: ub, failed: failed}
+		p.kidsReturned++
+		if fr.entered == vm.STATICCALL {
+			p.staticKidsReturned++
+		}
 		if !failed {
 			p.sstores += fr.sstores
 			p.logs += fr.logs
@@ -309,6 +320,11 @@ func (t *tracer) step(pc uint64, op vm.OpCode, gas, cost uint64, stack *vm.Stack
 		after := t.liveDigest()
 		t.checks++
 		t.cnt["static_subtrees_digested"]++
+		for k, v := range after {
+			if k[0] == '~' && t.staticDigest[k] != v {
+				t.cnt["info_empty_account_materialised_below_staticcall"]++
+			}
+		}
 		if d := diffDigest(t.staticDigest, after); len(d) > 0 {
 			t.violation("static-call-changed-state", fmt.Sprintf("state differs between a STATICCALL at depth %d and the next step of its frame: %s", t.staticDepth, firstN(d, 4)), d)
 		}
@@ -327,9 +343,13 @@ func (t *tracer) step(pc uint64, op vm.OpCode, gas, cost uint64, stack *vm.Stack
 			if fr.entered != vm.STATICCALL {
 				t.cnt["write_attempts_in_frames_below_the_static_frame"]++
 			}
-			if fr.child != nil {
+			if fr.kidsReturned > 0 {
 				t.cnt["write_attempts_in_static_frame_after_a_child_returned"]++
 				t.feats["static-write-after-child"] = true
+			}
+			if fr.staticKidsReturned > 0 {
+				t.cnt["write_attempts_in_static_frame_after_a_nested_staticcall_returned"]++
+				t.feats["static-write-after-nested-static"] = true
 			}
 		}
 		t.closeFrame(true, errClass(err))
